@@ -18,6 +18,7 @@ macro "tb_step" : tactic => `(tactic| first
   | (with_reducible refine @Fr_bind _ _ _ _ ?_ ?_)
   | (with_reducible refine @Pv_bind _ _ _ _ ?_ ?_)
   | (intro _)
+  | exact Fr_modify _ (fun _ => rfl)
   | (dsimp only)
   | infer_instance
   | split)
@@ -165,9 +166,10 @@ instance Fr_setFramesetOK (b) : Fr (setFramesetOK b) := Fr_modify _ (fun _ => rf
 instance Fr_setTokState (s) : Fr (setTokState s) := Fr_modify _ (fun _ => rfl)
 instance Fr_setInsertFromTable (b) : Fr (setInsertFromTable b) := Fr_modify _ (fun _ => rfl)
 instance RO_innerHTMLTruthy : RO innerHTMLTruthy := by unfold innerHTMLTruthy; tb_auto
-instance Fr_parseError (c v) : Fr (parseError c v) := Fr_modify _ (fun _ => rfl)
-instance Fr_parseErrorDefault : Fr parseErrorDefault := Fr_modify _ (fun _ => rfl)
-instance Fr_parseErrorS (c v) : Fr (parseErrorS c v) := Fr_modify _ (fun _ => rfl)
+instance RO_raiseIfStrict (c) : RO (raiseIfStrict c) := by unfold raiseIfStrict; tb_auto
+instance Fr_parseError (c v) : Fr (parseError c v) := by unfold parseError; tb_auto
+instance Fr_parseErrorDefault : Fr parseErrorDefault := by unfold parseErrorDefault; tb_auto
+instance Fr_parseErrorS (c v) : Fr (parseErrorS c v) := by unfold parseErrorS; tb_auto
 instance Fr_acknowledgeSelfClosing (d) : Fr (acknowledgeSelfClosing d) := by
   unfold acknowledgeSelfClosing
   haveI : Fr (modify fun st => { st with selfClosingAcknowledged := true } : M PUnit) := Fr_modify _ (fun _ => rfl)
